@@ -31,3 +31,11 @@ Definition holds_C04_readback (gfx map_ gff music sfx text : list Z) (version : 
    fit: plain storage needs len(text) <= 0x3d00 (and NUL-free text). A text that fits plainly must be written. *)
 Definition holds_C04_refused (text : list Z) : bool :=
   (area_size <? zlen text) || existsb (Z.eqb 0) text.
+
+(* observation 4: the two pixel functions alone, on an image of any width: out = get_pngdata_from_picodata(picodata,
+   label) and back = get_picodata_from_pngdata(out).  The low bits of out spell picodata, the upper six bits are the
+   label's, and reading out gives picodata back (followed by whatever the remaining pixels held). *)
+Definition holds_C04_pixels (picodata : list Z) (label out : list (list Z)) (back : list Z) : bool :=
+  let rom := rom_of_rows out in
+  zlist_eqb (firstn (length picodata) rom) picodata && rows_eqb (label_of out) (label_of label) &&
+  zlist_eqb back rom && forallb all_bytes out.
